@@ -53,7 +53,13 @@ def call_once(case):
     if fn is None:
         return "EXC MissingFunction"
     try:
-        r = fn(_arg(case["arg"]))
+        if case.get("kw"):
+            # the same call with the argument given by keyword (the name the function declares)
+            import inspect
+            name = list(inspect.signature(fn).parameters)[0]
+            r = fn(**{name: _arg(case["arg"])})
+        else:
+            r = fn(_arg(case["arg"]))
     except ValueError:
         return "ValueError"
     except Exception as e:  # noqa: BLE001
